@@ -2333,6 +2333,20 @@ opendir(const char *path)
 
 		lb_begin(&l, &c);
 		lb_kv_s(&l, "path", path);
+		if (r != NULL) {
+			/*
+			 * opendir(3) opens the directory close-on-exec "by libc
+			 * contract"; the descriptor hygiene theorem (C13) rests
+			 * on it, so the flag of the stream's descriptor is
+			 * recorded and the canonicaliser insists on it.
+			 */
+			int fdfl;
+
+			REAL(fcntl);
+			fdfl = real_fcntl(dirfd(r), F_GETFD);
+			lb_kv_i(&l, "cloexec",
+			    (fdfl != -1 && (fdfl & FD_CLOEXEC)) ? 1 : 0);
+		}
 		lb_result(&l, r ? dirfd(r) : -1, r == NULL, e);
 		lb_end(&l, &c);
 	}
